@@ -22,6 +22,10 @@ TARGETS = [
         ("VelocityControl", "is_unlimited", "C12", "C12_fn_is_unlimited"),
         ("VelocityControl", "velocity", "C12", "C12_fn_velocity"),
         ("VelocityControl", "insert", "C12", "C12_fn_insert"),
+        ("VelocityControl", "get_state", "C12", "C12_fn_get_state"),
+        ("VelocityControl", "new_with_intervals", "C12", "C12_fn_new_with_intervals"),
+        ("VelocityControl", "new_unlimited", "C12", "C12_fn_new_unlimited"),
+        ("VelocityControl", "new", "C12", "C12_fn_new"),
     ]),
     dict(area="Simple", rel="vls-core/src/policy/simple_validator.rs", consts=["vls-core/src/policy/mod.rs"], externals={}, fns=[
         ("SimpleValidator", "validate_delay", "C05", "C05_fn_validate_delay"),
@@ -56,13 +60,272 @@ TARGETS = [
         ("EnforcementState", "get_previous_counterparty_point", "C03", "C03_fn_get_previous_counterparty_point"),
         ("EnforcementState", "get_previous_counterparty_commit_info", "C03", "C03_fn_get_previous_counterparty_commit_info"),
         ("EnforcementState", "set_next_counterparty_revoke_num", "C03", "C03_fn_set_next_counterparty_revoke_num"),
+        # default methods of `trait Validator` (the guards in front of the setters; `&mut EnforcementState` parameter);
+        # "filter": the only external is `policy_filter_err`, the `fngen` driver instantiates it with a constant
+        # filter given as the first argument (1 = every tag stays an error, 0 = every tag is demoted to a warning)
+        ("Validator", "set_next_holder_commit_num", "C01", "C01_fn_validator_set_next_holder_commit_num", "filter"),
+        ("Validator", "get_current_holder_commitment_info", "C02", "C02_fn_get_current_holder_commitment_info", "filter"),
+        ("Validator", "set_next_counterparty_commit_num", "C03", "C03_fn_validator_set_next_counterparty_commit_num", "filter"),
+        ("Validator", "set_next_counterparty_revoke_num", "C03", "C03_fn_validator_set_next_counterparty_revoke_num", "filter"),
+    ]),
+    dict(area="SimpleState", rel="vls-core/src/policy/simple_validator.rs", consts=["vls-core/src/policy/mod.rs"],
+         structs=["vls-core/src/policy/validator.rs"],
+         # logging-only macros of the file (dropped like debug!; `scoped_debug_return!` yields a guard object that only
+         # logs when dropped: value `()`, the assignment `*debug_on_return = false` is dropped with it)
+         log_macros=["dbgvals", "policy_log", "scoped_debug_return"],
+         # the content rules `validate_commitment_tx` are an external `… -> Rs.M Unit` (C05's subject); the selectors of
+         # EnforcementState are externals that may overflow (instantiated with the generated Gen.FnEnforce bodies in the
+         # tying theorems); the HTLC deltas are only logged; secp is opaque
+         externals={
+             "self.validate_commitment_tx": {"params": ["EnforcementState", "u64", "PublicKey", "ChannelSetup", "ChainState",
+                                                        "CommitmentInfo2"], "ret": "Result<(), ValidationError>", "monadic": True},
+             "CommitmentInfo2.delta_offered_htlcs": {"params": ["CommitmentInfo2"], "ret": "(HtlcDelta, HtlcDelta)"},
+             "CommitmentInfo2.delta_received_htlcs": {"params": ["CommitmentInfo2"], "ret": "(HtlcDelta, HtlcDelta)"},
+             "EnforcementState.get_previous_counterparty_point": {"params": ["u64"], "ret": "Option<PublicKey>", "partial": True},
+             "EnforcementState.get_previous_counterparty_commit_info": {"params": ["u64"], "ret": "Option<CommitmentInfo2>",
+                                                                        "partial": True},
+             "Secp256k1::signing_only": {"params": [], "ret": "SecpCtx"},
+             "PublicKey::from_secret_key": {"params": ["SecpCtx", "SecretKey"], "ret": "PublicKey"},
+         }, fns=[
+        ("SimpleValidator", "validate_holder_commitment_tx", "C02", "C02_fn_validate_holder_commitment_tx"),
+        ("SimpleValidator", "validate_counterparty_commitment_tx", "C03", "C03_fn_validate_counterparty_commitment_tx"),
+        ("SimpleValidator", "validate_counterparty_revocation", "C03", "C03_fn_validate_counterparty_revocation"),
+    ]),
+    dict(area="Secrets", rel="vls-core/src/policy/validator.rs", consts=[],
+         # the compact BOLT-3 store of counterparty revocation secrets (copied from LDK); the hash is a declared external
+         externals={
+             "Sha256::hash": {"params": ["Vec<u8>"], "ret": "Sha256Hash"},
+             "Sha256Hash.to_byte_array": {"params": [], "ret": "Vec<u8>"},
+         }, fns=[
+        ("CounterpartyCommitmentSecrets", "new", "C03", "C03_fn_secrets_new"),
+        ("CounterpartyCommitmentSecrets", "place_secret", "C03", "C03_fn_place_secret"),
+        ("CounterpartyCommitmentSecrets", "get_min_seen_secret", "C03", "C03_fn_get_min_seen_secret"),
+        ("CounterpartyCommitmentSecrets", "derive_secret", "C03", "C03_fn_derive_secret"),
+        ("CounterpartyCommitmentSecrets", "provide_secret", "C03", "C03_fn_provide_secret"),
+        ("CounterpartyCommitmentSecrets", "get_secret", "C03", "C03_fn_get_secret"),
+    ]),
+    dict(area="Channel", rel="vls-core/src/channel.rs", consts=["vls-core/src/util/mod.rs"],
+         structs=["vls-core/src/policy/validator.rs"],
+         # declared externals (trusted boundary, explicit parameters of the generated definitions): key derivation of the
+         # LDK signer and secp parsing; `self.validator()` is only the receiver of `policy_err!` (its policy filter is the
+         # external `policy_filter_err`); a declared `Result` is read as `Option` (`Err` = `none`)
+         externals={
+             "self.validator": {"params": [], "ret": "()", "drop": True},
+             "self.get_per_commitment_point_unchecked": {"params": ["u64"], "ret": "PublicKey"},
+             "InMemorySigner.release_commitment_secret": {"params": ["u64"], "ret": "Result<Secret32, ()>"},
+             "SecretKey::from_slice": {"params": ["Secret32"], "ret": "Result<SecretKey, ()>"},
+         }, fns=[
+        # `impl ChannelBase for ChannelStub`: a channel that is not set up never discloses a secret (C01)
+        ("ChannelStub", "get_per_commitment_secret", "C01", "C01_fn_stub_get_per_commitment_secret"),
+        ("ChannelStub", "get_per_commitment_secret_or_none", "C01", "C01_fn_stub_get_per_commitment_secret_or_none"),
+        # `impl ChannelBase for Channel`: the release guard `n + 2 <= next_holder_commit_num` and the point guard
+        ("Channel", "get_per_commitment_point", "C01", "C01_fn_get_per_commitment_point"),
+        ("Channel", "get_per_commitment_secret", "C01", "C01_fn_get_per_commitment_secret"),
+        ("Channel", "get_per_commitment_secret_or_none", "C01", "C01_fn_get_per_commitment_secret_or_none"),
+        ("Channel", "release_commitment_secret", "C01", "C01_fn_release_commitment_secret"),
     ]),
     dict(area="Monitor", rel="vls-core/src/monitor.rs", consts=[], externals={}, fns=[
         ("State", "depth_of", "C15", "C15_fn_depth_of"),
         ("State", "deep_enough_and_saw_node_forget", "C15", "C15_fn_deep_enough"),
         ("State", "is_done", "C15", "C15_fn_is_done"),
     ]),
+    # ---- C09: the sweep validators.  They read rust-bitcoin values (`Transaction`, `LockTime`) and call the `Wallet`
+    # trait; those are reached through *views* (the fields the code reads, as struct declarations) and *external
+    # methods* (explicit function parameters of the generated definitions, instantiated and stated in Props/C09Fn.lean).
+    # A few constructs around them are normalised textually first (rules below; every rule must apply exactly the
+    # declared number of times inside the named function, otherwise that function is not translated).
+    dict(area="Sweep", rel="vls-core/src/policy/simple_validator.rs", consts=[],
+         structs=["vls-core/src/channel.rs", "vls-core/src/policy/validator.rs"],
+         views="""
+             pub struct Transaction { pub version: i32, pub lock_time: LockTime, pub input: Vec<TxIn>, pub output: Vec<TxOut> }
+             pub struct TxIn { pub sequence: u32 }
+             pub struct TxOut { pub script_pubkey: ScriptBuf }
+             pub struct HTLCOutputInCommitment { pub offered: bool, pub cltv_expiry: u32 }
+         """,
+         externals={
+             # Wallet::can_spend(&self, child_path, script_pubkey) -> Result<bool, Status>, seen as Option (Err = None)
+             "can_spend": dict(receiver="Wallet", params=["Wallet", "DerivationPath", "ScriptBuf"], ret="Option<bool>"),
+             # Wallet::allowlist_contains(&self, script_pubkey, path) -> bool; Node's implementation can panic
+             # (`derive_pub(..).unwrap()` on a hardened path)
+             "allowlist_contains": dict(receiver="Wallet", params=["Wallet", "ScriptBuf", "DerivationPath"], ret="bool",
+                                        may_panic=True),
+             # bitcoin::absolute::Height::from_consensus(u32) -> Result<Height, _>, seen as Option
+             "height_from_consensus": dict(params=["u32"], ret="Option<Height>"),
+             # LockTime::is_satisfied_by(height, Time::MIN)
+             "is_satisfied_by_height": dict(receiver="LockTime", params=["LockTime", "Height"], ret="bool"),
+             # LockTime::to_consensus_u32
+             "to_consensus_u32": dict(receiver="LockTime", params=["LockTime"], ret="u32"),
+             # ChannelSetup::is_anchors (vls-core/src/channel.rs, translated on its own in area Channel)
+             "is_anchors": dict(receiver="ChannelSetup", params=["ChannelSetup"], ret="bool"),
+             # ChannelSetup::is_zero_fee_htlc (vls-core/src/channel.rs, translated on its own in area Channel)
+             "is_zero_fee_htlc": dict(receiver="ChannelSetup", params=["ChannelSetup"], ret="bool"),
+             # parse_received_htlc_script(script, is_anchors) -> Result<(.., cltv_expiry: i64), _>: only the expiry is used
+             "received_htlc_cltv": dict(params=["ScriptBuf", "bool"], ret="Option<i64>"),
+             # parse_offered_htlc_script(script, is_anchors).is_ok()
+             "is_offered_htlc_script": dict(params=["ScriptBuf", "bool"], ret="bool"),
+         },
+         normalise={
+             ("SimpleValidator", "validate_sweep"): ["version_two", "can_spend_map_err"],
+             ("SimpleValidator", "validate_delayed_sweep"): ["debug_guard", "debug_guard_off", "prepend_msg", "locktime_height", "sequence_u32"],
+             ("SimpleValidator", "validate_justice_sweep"): ["debug_guard", "debug_guard_off", "prepend_msg", "locktime_height", "sequence_u32"],
+             ("SimpleValidator", "validate_counterparty_htlc_sweep"): ["debug_guard", "debug_guard_off", "prepend_msg", "locktime_height",
+                                                                        "sequence_u32", "parse_received", "parse_offered"],
+             ("SimpleValidator", "validate_htlc_tx"): ["debug_guard", "debug_guard_off"],
+         },
+         fns=[
+        ("SimpleValidator", "validate_sweep", "C09", "C09_fn_validate_sweep"),
+        ("SimpleValidator", "validate_delayed_sweep", "C09", "C09_fn_validate_delayed_sweep"),
+        ("SimpleValidator", "validate_justice_sweep", "C09", "C09_fn_validate_justice_sweep"),
+        ("SimpleValidator", "validate_counterparty_htlc_sweep", "C09", "C09_fn_validate_counterparty_htlc_sweep"),
+        ("SimpleValidator", "validate_htlc_tx", "C09", "C09_fn_validate_htlc_tx"),
+    ]),
+    # ---- C08: validate_onchain_tx (the per-output classification loop, the sums, the final fee check)
+    dict(area="OnchainTx", rel="vls-core/src/policy/simple_validator.rs", consts=["vls-core/src/policy/mod.rs"],
+         structs=["vls-core/src/channel.rs", "vls-core/src/policy/validator.rs"],
+         views="""
+             pub struct Transaction { pub version: i32, pub output: Vec<TxOut> }
+             pub struct TxOut { pub value: u64, pub script_pubkey: ScriptBuf }
+         """,
+         error_ctors={"unknown_destinations_error": "unknown-destinations"}, compact_guards=True,
+         externals={
+             "can_spend": dict(receiver="Wallet", params=["Wallet", "DerivationPath", "ScriptBuf"], ret="Option<bool>"),
+             "allowlist_contains": dict(receiver="Wallet", params=["Wallet", "ScriptBuf", "DerivationPath"], ret="bool",
+                                        may_panic=True),
+             # Transaction::base_size
+             "base_size": dict(receiver="Transaction", params=["Transaction"], ret="usize"),
+             # DerivationPath::len, DerivationPath::master()
+             "len": dict(receiver="DerivationPath", params=["DerivationPath"], ret="usize"),
+             "master_path": dict(params=[], ret="DerivationPath"),
+             # util::transaction_utils::is_tx_non_malleable (translated on its own in area TxUtilC08): `assert_eq!` inside
+             "is_tx_non_malleable": dict(params=["Transaction", "Vec<bool>"], ret="bool", may_panic=True),
+             "funding_script_pubkey": dict(params=["InMemorySigner", "Wallet"], ret="ScriptBuf"),
+         },
+         normalise={
+             ("SimpleValidator", "validate_onchain_tx"): [
+                 "debug_guard", "debug_guard_off", "version_two", "inner_macro_def", "inner_macro_use", "can_spend_map_err_onchain",
+                 "value_to_sat", "master_path", "slot_lock", "dbgvals", "funding_script", "unknowns_type",
+                 "prepend_msg"],
+         },
+         fns=[
+        ("SimpleValidator", "validate_onchain_tx", "C08", "C08_fn_validate_onchain_tx"),
+    ]),
+    dict(area="TxUtilC08", rel="vls-core/src/util/transaction_utils.rs", consts=[], externals={},
+         views="pub struct Transaction { pub input: Vec<TxIn> }",
+         fns=[
+        ("", "is_tx_non_malleable", "C08", "C08_fn_is_tx_non_malleable"),
+    ]),
+    dict(area="Channel", rel="vls-core/src/channel.rs", consts=[], externals={}, fns=[
+        ("ChannelSetup", "is_anchors", "C09", "C09_fn_is_anchors"),
+        ("ChannelSetup", "is_zero_fee_htlc", "C09", "C09_fn_is_zero_fee_htlc"),
+    ]),
 ]
+
+# Normalisation rules: name -> (regex on the function's source text, replacement, what it means / what is trusted)
+_CMT = r"(?:\s*//[^\n]*\n)*\s*"
+RULES = {
+    "version_two": (r"tx\.version != Version::TWO", "tx.version != 2",
+                    "rust-bitcoin `Version::TWO` is the consensus value 2 (view: `version: i32`)"),
+    "can_spend_map_err": (
+        r"wallet\.can_spend\(wallet_path, dest_script\)\.map_err\(\|err\| \{\s*policy_error\(\s*(\"policy-onchain-output-scriptpubkey\"),"
+        r"\s*format!\(\"wallet can_spend error: \{\}\", err\),\s*\)\s*\}\)\?",
+        r"wallet.can_spend(wallet_path, dest_script).ok_or_else(|| policy_error(\1, String::new()))?",
+        "`Result<bool, Status>` seen as `Option<bool>`; every `Err` becomes the policy error with the same tag (message dropped)"),
+    "debug_guard": (r"let mut debug_on_return =\s*scoped_debug_return!\([^;]*\);", "",
+                    "scopeguard that only logs its arguments when the function fails"),
+    "debug_guard_off": (r"\*debug_on_return = false;", "", "switch of that log guard"),
+    "prepend_msg": (r"\s*\.map_err\(\|ve\| ve\.prepend_msg\(format!\(\"\{\}: \", containing_function!\(\)\)\)\)\?", "?",
+                    "only the message of the error is extended"),
+    "locktime_height": (
+        r"tx\.lock_time\.is_satisfied_by\(" + _CMT + r"Height::from_consensus\(([^()]*)\)\s*\.expect\(\"Height::from_consensus\"\)," +
+        _CMT + r"Time::MIN,\s*\)",
+        r'tx.lock_time.is_satisfied_by_height(height_from_consensus(\1).expect("Height::from_consensus"))',
+        "`is_satisfied_by(h, Time::MIN)` as one external; `Height::from_consensus(..)` as an external returning Option"),
+    "sequence_u32": (r"tx\.input\[0\]\.sequence\.0", "tx.input[0].sequence", "`Sequence(pub u32)` seen as its u32 (view: `sequence: u32`)"),
+    "parse_received": (
+        r"if let Ok\(\(\s*_revocation_hash,\s*_remote_htlc_pubkey,\s*_payment_hash_vec,\s*_local_htlc_pubkey,\s*cltv_expiry,\s*\)\) =\s*"
+        r"parse_received_htlc_script\(redeemscript, setup\.is_anchors\(\)\)",
+        "if let Some(cltv_expiry) = received_htlc_cltv(redeemscript, setup.is_anchors())",
+        "of the parsed received-HTLC script only `cltv_expiry` is used (the other components are bound to `_` names)"),
+    # ---- validate_onchain_tx
+    "inner_macro_def": (r"macro_rules! add_beneficial_output \{.*?\n            \}\n", "\n",
+                        "local macro `add_beneficial_output!`: its invocations are expanded by the next rule"),
+    "inner_macro_use": (r"add_beneficial_output!\(\s*beneficial_sum,\s*([^,]+?),\s*\"[^\"]*\"\s*\)",
+                        r'beneficial_sum.checked_add(\1).ok_or_else(|| policy_error("policy-onchain-fee-range", String::new()))',
+                        "expansion of `add_beneficial_output!($sum, $val, $which)` as defined in the function (message dropped)", 4),
+    "can_spend_map_err_onchain": (
+        r"wallet\.can_spend\(opath, &output\.script_pubkey\)\.map_err\(\|err\| \{\s*policy_error\(\s*(\"policy-onchain-output-scriptpubkey\"),"
+        r"\s*format!\(\"output\[\{\}\]: wallet_can_spend error: \{\}\", outndx, err\),\s*\)\s*\}\)\?",
+        r"wallet.can_spend(opath, &output.script_pubkey).ok_or_else(|| policy_error(\1, String::new()))?",
+        "`Result<bool, Status>` seen as `Option<bool>`; every `Err` becomes the policy error with the same tag (message dropped)"),
+    "value_to_sat": (r"\.value\.to_sat\(\)", ".value", "`Amount` seen as its satoshi value (view: `value: u64`)", None),
+    "master_path": (r"&DerivationPath::master\(\)", "&master_path()", "the empty derivation path as an external constant"),
+    "slot_lock": (r"match &\*slot\.lock\(\)\.unwrap\(\) \{", "match slot {",
+                  "`Mutex::lock().unwrap()` is the identity on the protected value (the translator's convention for locks)"),
+    "dbgvals": (r"dbgvals!\([^;]*\);", "", "logging macro"),
+    "funding_script": (
+        r"let funding_redeemscript = make_funding_redeemscript\(\s*&chan\.keys\.pubkeys\(\)\.funding_pubkey,"
+        r"\s*&chan\.counterparty_pubkeys\(\)\.funding_pubkey,\s*\);\s*let address = Address::p2wsh\(&funding_redeemscript, wallet\.network\(\)\);"
+        r"\s*let script_pubkey = address\.script_pubkey\(\);",
+        "let script_pubkey = funding_script_pubkey(&chan.keys, wallet);",
+        "the channel's p2wsh funding script (a function of both funding pubkeys held by `chan.keys` and of the network) as one external"),
+    "unknowns_type": (r"let mut unknowns = Vec::new\(\);", "let mut unknowns: Vec<usize> = Vec::new();", "element type made explicit"),
+    "parse_offered": (
+        r"if let Ok\(\(\s*_revocation_hash,\s*_remote_htlc_pubkey,\s*_local_htlc_pubkey,\s*_payment_hash_vec,\s*\)\) =\s*"
+        r"parse_offered_htlc_script\(redeemscript, setup\.is_anchors\(\)\)",
+        "if is_offered_htlc_script(redeemscript, setup.is_anchors())",
+        "of the parsed offered-HTLC script nothing is used"),
+}
+
+
+DOTALL = ("inner_macro_def",)
+
+
+def make_rewriter(rel, plan):
+    """plan: {(impl, fn): [rule names]}.  The rules are applied to the source lines of the named function only; the line
+    count is preserved.  A rule that does not apply exactly once marks the function as failed (it is then not translated)."""
+    from rsparse import FileIndex
+
+    def rw(src, log, failed):
+        idx = FileIndex(rel, src)
+        lines = src.split("\n")
+        for (impl, name), rules in plan.items():
+            # span of the function by brace matching on the token stream (the un-normalised text need not parse)
+            k = idx.fns.get((impl, name))
+            if k is None or k == "ambiguous":
+                failed[(impl, name)] = "%s: function %s not found or ambiguous" % (rel, name); continue
+            toks, j, d = idx.toks, k, 0
+            while j < len(toks) and toks[j].s != "{": j += 1
+            while j < len(toks):
+                if toks[j].k != "str":
+                    if toks[j].s == "{": d += 1
+                    elif toks[j].s == "}":
+                        d -= 1
+                        if d == 0: break
+                j += 1
+            if j >= len(toks):
+                failed[(impl, name)] = "%s: unbalanced body of %s" % (rel, name); continue
+            a, b = toks[k].line - 1, toks[j].line
+            seg = "\n".join(lines[a:b])
+            bad = None
+            for rn in rules:
+                rx, repl, _why = RULES[rn][:3]
+                want = RULES[rn][3] if len(RULES[rn]) > 3 else 1      # None: at least once
+
+                def sub(m):
+                    out = m.expand(repl)
+                    return out + "\n" * (m.group(0).count("\n") - out.count("\n"))
+                seg, n = re.subn(rx, sub, seg, flags=re.S if rn in DOTALL else 0)
+                if (want is None and n < 1) or (want is not None and n != want):
+                    bad = "normalisation rule %r applies %d times in %s (declared: %s)" % (rn, n, name, want or "at least once"); break
+                log.append(("%s in %s: %s" % (rn, name, RULES[rn][2]), n))
+            if bad:
+                failed[(impl, name)] = bad; continue
+            new = seg.split("\n")
+            if len(new) != b - a:
+                failed[(impl, name)] = "normalisation changed the line count of %s" % name; continue
+            lines[a:b] = new
+        return "\n".join(lines)
+    return rw
 
 
 def load_targets():
@@ -81,6 +344,7 @@ def load_targets():
             d["consts"], d["structs"] = list(d["consts"]), list(d["structs"])
             d["externals"], d["foreign_structs"] = dict(d["externals"]), dict(d["foreign_structs"])
             d["tuple_structs"] = list(d.get("tuple_structs", []))
+            d["fns_from"] = list(d.get("fns_from", []))
             by[d["area"]] = d; tgs.append(d)
             return
         t = by[d["area"]]
@@ -92,6 +356,7 @@ def load_targets():
         t["externals"].update(d.get("externals", {}))
         t["foreign_structs"].update(d.get("foreign_structs", {}))
         t["tuple_structs"] += [n for n in d.get("tuple_structs", []) if n not in t["tuple_structs"]]
+        t["fns_from"] += [n for n in d.get("fns_from", []) if n not in t["fns_from"]]
     for t in TARGETS: add(t, "TARGETS")
     for path in sorted(glob.glob(os.path.join(HERE, "fn_targets", "*.json"))):
         try:
@@ -107,8 +372,13 @@ FIXTURE_PROP = "FIX"    # functions of harness/src/props/fn_gen_fixture.rs: diff
 
 
 def unit_for(repo, tg):
-    return Unit(repo, tg["rel"], "VlsModel.Gen.Fn" + tg["area"], tg.get("consts", ()), tg.get("externals", {}),
-                tg.get("structs", ()), foreign_structs=tg.get("foreign_structs"), tuple_structs=tg.get("tuple_structs"))
+    u = Unit(repo, tg["rel"], "VlsModel.Gen.Fn" + tg["area"], tg.get("consts", ()), tg.get("externals", {}),
+             tg.get("structs", ()), foreign_structs=tg.get("foreign_structs"), tuple_structs=tg.get("tuple_structs"),
+             fn_files=tg.get("fns_from", ()),
+             views=tg.get("views"), error_ctors=tg.get("error_ctors"), compact_guards=bool(tg.get("compact_guards")),
+             rewrite=make_rewriter(tg["rel"], tg["normalise"]) if tg.get("normalise") else None)
+    u.log_macros = tuple(tg.get("log_macros", ()))     # declared logging-only macros of the file
+    return u
 
 
 def census(repo, tgs=None, units=None):
@@ -270,7 +540,7 @@ class Codec:
         if k == "bool": return "encBool"
         if k == "str": return "id"
         if k == "unit": return "encUnit"
-        if k == "opaque": return "toString"
+        if k == "opaque": return "(toString : Nat → String)"   # pins an opaque type that only occurs in the result
         if k == "opt": return "(encOpt %s)" % self.enc(t[1])
         if k == "vec": return "(encList %s)" % self.enc(t[1])
         if k in ("map", "umap") and t[1][0] == "opaque": return "(encOmap %s)" % self.enc(t[2])   # printed sorted by key
@@ -285,21 +555,25 @@ class Codec:
         raise RsError("no encoder for %r" % (t,))
 
 
-def dispatch_for(unit, area, fns, arms, defs, errall=()):
+def dispatch_for(unit, area, fns, arms, defs, errall=(), filt=()):
     """adds the `call_…` definitions of the translated functions of one unit"""
     cd = Codec(unit, area)
     calls = []
     for f in fns:
         key = "%s.%s" % (area, f.lean_name)
+        const_filter = f.lean_name in filt and [n for n, _ in f.exts] == ["policy_filter_err"]
         extargs = ""
         if f.exts and (f.impl, f.name) in errall and [n for n, _ in f.exts] == ["policy_filter_err"]:
             extargs = "(fun _ => true) "
-        elif f.exts:
+        elif f.exts and not const_filter:
             arms.append('  | "%s" :: _ => "nodriver"' % key)
             continue
         ident = "call_%s_%s" % (area, f.lean_name.replace(".", "_").replace("«", "").replace("»", ""))
         L = ["def %s (ts : List String) : Option String := do" % ident]
         names = []
+        if const_filter:
+            L.append("  let (pf, ts) ← decBool ts")
+            names.append("(fun _ => pf)")
         for i, (pn, pt) in enumerate(f.params):
             L.append("  let (a%d, ts) ← %s ts" % (i, cd.dec(pt)))
             names.append("a%d" % i)
@@ -362,8 +636,9 @@ def extract(repo):
                 snippets.append("// %s:%d\n%s\n" % (tg["rel"], f.line, txt))
         outputs["Fn%s.lean" % tg["area"]] = u.emit()
         imports.append("import VlsModel.Gen.Fn%s" % tg["area"])
+        filt = set((t[0] + "." if t[0] else "") + t[1] for t in tg["fns"] if len(t) > 4 and t[4] == "filter")
         dispatch_for(u, tg["area"], [u.fns[k] for k in u.order], arms, ddefs,
-                     errall={(t[0] or None, t[1]) for t in tg["fns"] if len(t) > 4 and t[4] == "errall"})
+                     errall={(t[0] or None, t[1]) for t in tg["fns"] if len(t) > 4 and t[4] == "errall"}, filt=filt)
     outputs["FnDispatch.lean"] = "\n".join(
         ["import VlsModel.Drv.FnCodec"] + imports +
         ["/-! Dispatch table of the driver model `fngen`: `<Area>.<function> <args…>` -> outcome of the generated",
